@@ -56,21 +56,28 @@ def w_or(a, b):
 
 
 def w_ror(a, n):
-    n %= 64
-    return tuple(a[(k + n) % 64] for k in range(64))
+    w = len(a)
+    n %= w
+    return tuple(a[(k + n) % w] for k in range(w))
 
 
 def w_shl(a, n):
-    return tuple(ZERO if k < n else a[k - n] for k in range(64))
+    return tuple(ZERO if k < n else a[k - n] for k in range(len(a)))
 
 
 def w_shr(a, n):
-    return tuple(a[k + n] if k + n < 64 else ZERO for k in range(64))
+    w = len(a)
+    return tuple(a[k + n] if k + n < w else ZERO for k in range(w))
 
 
 def signed(v):
     v &= MASK
     return v - (1 << 64) if v >> 63 else v
+
+
+def signed32(v):
+    v &= 0xffffffff
+    return v - (1 << 32) if v >> 31 else v
 
 
 JCC = {
@@ -82,8 +89,10 @@ JCC = {
 
 
 class Machine:
-    def __init__(self, fn):
+    def __init__(self, fn, w=64):
         self.fn = fn
+        self.w = w                 # 64: x86-64 (q suffix), 32: i386 (l suffix)
+        self.sfx = "q" if w == 64 else "l"
         self.regs = {}
         self.mem = {}          # (region, offset) -> value
         self.flags = None      # (dst value, src value) of the last cmpq, both constants
@@ -113,9 +122,9 @@ class Machine:
 
     def read(self, o):
         if o.kind == "imm":
-            return const_bits(o.imm & MASK, 64)
+            return const_bits(o.imm & ((1 << self.w) - 1), self.w)
         if o.kind == "reg":
-            if o.width != 8:
+            if o.width != self.w // 8:
                 raise Unsupported("sub-register operand %s" % o.text)
             return self.get_reg(o.reg)
         if o.kind == "mem":
@@ -127,7 +136,7 @@ class Machine:
 
     def write(self, o, v):
         if o.kind == "reg":
-            if o.width != 8:
+            if o.width != self.w // 8:
                 raise Unsupported("sub-register operand %s" % o.text)
             self.set_reg(o.reg, v)
         elif o.kind == "mem":
@@ -163,6 +172,14 @@ class Machine:
                 raise Unsupported("step budget exhausted")
             ins = fn.insns[pc]
             op, ops = ins.op, ins.ops
+            W, step = self.w, self.w // 8
+            wmask = (1 << W) - 1
+            if op.endswith(self.sfx) and op[:-1] in ("mov", "xor", "and", "or", "not", "bswap", "ror", "rol", "shl", "shr",
+                                                       "add", "sub", "push", "pop", "cmp"):
+                op = op[:-1] + "q"          # the rules below are written with the 64-bit mnemonics
+            elif op.endswith(("q", "l")) and op not in JCC and op not in ("jl", "call") and op[:-1] in (
+                    "mov", "xor", "and", "or", "not", "bswap", "ror", "rol", "shl", "shr", "add", "sub", "push", "pop", "cmp"):
+                raise Unsupported("operand size of %s does not match the %d-bit mode" % (ins.text, W))
             if op == "movq":
                 self.write(ops[1], self.read(ops[0]))
             elif op in ("xorq", "andq", "orq"):
@@ -176,30 +193,30 @@ class Machine:
             elif op in ("rorq", "rolq", "shlq", "shrq"):
                 if len(ops) != 2 or ops[0].kind != "imm":
                     raise Unsupported("variable shift %s" % ins.text)
-                n = ops[0].imm & 63
+                n = ops[0].imm & (W - 1)
                 v = self._bits(self.read(ops[1]), ins.text)
-                self.write(ops[1], {"rorq": w_ror(v, n), "rolq": w_ror(v, 64 - n), "shlq": w_shl(v, n), "shrq": w_shr(v, n)}[op])
+                self.write(ops[1], {"rorq": w_ror(v, n), "rolq": w_ror(v, W - n), "shlq": w_shl(v, n), "shrq": w_shr(v, n)}[op])
             elif op in ("addq", "subq"):
                 a, b = self.read(ops[0]), self.read(ops[1])
                 ca = None if isinstance(a, PtrVal) else to_int(a)
                 if isinstance(b, PtrVal) and ca is not None:
-                    d = signed(ca)
+                    d = ca - (1 << W) if ca >> (W - 1) else ca
                     self.write(ops[1], PtrVal(b.region, b.off + (d if op == "addq" else -d)))
                 else:
                     cb = None if isinstance(b, PtrVal) else to_int(b)
                     if ca is None or cb is None:
                         raise Unsupported("arithmetic on symbolic data: %s" % ins.text)
-                    self.write(ops[1], const_bits((cb + ca if op == "addq" else cb - ca) & MASK, 64))
+                    self.write(ops[1], const_bits((cb + ca if op == "addq" else cb - ca) & wmask, W))
             elif op == "pushq":
                 sp = self.get_reg("rsp")
-                self.set_reg("rsp", PtrVal(sp.region, sp.off - 8))
-                self.mem[(sp.region, sp.off - 8)] = self.read(ops[0])
+                self.set_reg("rsp", PtrVal(sp.region, sp.off - step))
+                self.mem[(sp.region, sp.off - step)] = self.read(ops[0])
             elif op == "popq":
                 sp = self.get_reg("rsp")
                 if (sp.region, sp.off) not in self.mem:
                     raise Unsupported("pop of an unknown stack slot")
                 self.write(ops[0], self.mem[(sp.region, sp.off)])
-                self.set_reg("rsp", PtrVal(sp.region, sp.off + 8))
+                self.set_reg("rsp", PtrVal(sp.region, sp.off + step))
             elif op == "cmpq":
                 a, b = self.read(ops[0]), self.read(ops[1])
                 ca = None if isinstance(a, PtrVal) else to_int(a)
@@ -210,7 +227,10 @@ class Machine:
             elif op in JCC:
                 if self.flags is None:
                     raise Unsupported("conditional jump without a constant comparison: %s" % ins.text)
-                if JCC[op](self.flags[0], self.flags[1]):
+                fa, fb = self.flags
+                if W == 32 and op in ("jl", "jge", "jg", "jle"):
+                    fa, fb = signed32(fa) & MASK, signed32(fb) & MASK
+                if JCC[op](fa, fb):
                     lab = ops[0].sym
                     if lab in stop_labels:
                         return lab
